@@ -42,6 +42,7 @@ MapA == {<< <<"x", "X">>, <<"y", "Y">> >>, << <<"x", "X">>, <<"1", "I">>, <<"y",
          << <<"q", "Q1">>, <<"q", "Q2">>, <<"x", "X">>, <<"y", "Y">>, <<"1", "I">> >>}
 RemapOps == {RM(<<"a">>, <<"m">>, ml, ig) : ml \in MapA, ig \in B}
             \cup {RM(<<"a", "b">>, <<"m", "n">>, << <<"x", "x", "P", "Q">>, <<"x", "y", "R", "S">>, <<"1", "n/a", "T", "U">> >>, ig) : ig \in B}
+            \cup {RM(<<"a", "b">>, <<"m">>, << <<"x1", "1", "P">>, <<"x", "y", "Q">> >>, ig) : ig \in B}      \* (x1,1) is not (x,11)
             \cup {RM(<<"a">>, <<"b", "m">>, << <<"x", "X", "P">>, <<"y", "Y", "Q">>, <<"1", "I", "R">> >>, ig) : ig \in B}
             \cup {RMi(<<"duration">>, <<"m">>, << <<"1", "one">>, <<"2", "two">>, <<"3", "three">> >>, ig, <<"duration">>) : ig \in B}
             \cup {RMi(<<"onset", "a">>, <<"m">>, << <<"1", "x", "P">>, <<"2", "x", "Q">>, <<"3", "1", "R">> >>, ig, <<"onset">>) : ig \in B}
@@ -138,6 +139,10 @@ P9 == Row(L1, <<"4", "1", "x", "x">>)
 P10 == Row(L1, <<"2", "6", "x", "x">>)
 \* an event whose onset is not known
 P11 == Row(L1, <<"n/a", "1", "x", "y">>)
+\* values that read like another key when written one after the other
+P12 == Row(L1, <<"1", "1", "x", "11">>)
+P13 == Row(L1, <<"2", "1", "x1", "1">>)
+Collide == {[cols |-> L1, rows |-> r] : r \in {<<P12>>, <<P13, P12>>, <<P1[3], P12>>}}
 NoOnset == {[cols |-> L1, rows |-> r] : r \in {<<P11>>, <<P1[1], P11, P1[3]>>, <<P11, P1[1]>>}}
 \* ... the longest event first, or in the MIDDLE of the run
 LongFirst == {[cols |-> L1, rows |-> r] : r \in {<<P7, P8>>, <<P7, P8, P9>>, <<P1[1], P10, P9>>, <<P1[6], P1[1], P10, P9, P1[6]>>}}
@@ -151,9 +156,9 @@ P4 == <<Row(L4, <<"1", "p", "x", "1", "x">>), Row(L4, <<"1", "q", "x", "2", "x">
 Seqs(pool, n) == UNION {[1..k -> Range(pool)] : k \in 0..n}
 Tables(L, pool, n) == {[cols |-> L, rows |-> r] : r \in Seqs(pool, n)}
 Pre(pool, k) == SubSeq(pool, 1, k)
-TablesQuick == LongFirst \cup NoOnset \cup Tables(L1, Pre(P1, 5), 2) \cup Tables(L2, P2, 2) \cup Tables(L3, P3, 2) \cup Tables(L4, P4, 1)
+TablesQuick == LongFirst \cup NoOnset \cup Collide \cup Tables(L1, Pre(P1, 5), 2) \cup Tables(L2, P2, 2) \cup Tables(L3, P3, 2) \cup Tables(L4, P4, 1)
                \cup {[cols |-> L1, rows |-> r] : r \in {<<P1[1], P1[2], P1[3]>>, <<P1[1], P1[3], P1[3], P1[6]>>, <<P1[4], P1[1], P1[1], P1[2]>>}}
-TablesThorough == LongFirst \cup NoOnset \cup Tables(L1, P1, 3) \cup Tables(L2, P2, 3) \cup Tables(L3, P3, 3) \cup Tables(L4, P4, 3)
+TablesThorough == LongFirst \cup NoOnset \cup Collide \cup Tables(L1, P1, 3) \cup Tables(L2, P2, 3) \cup Tables(L3, P3, 3) \cup Tables(L4, P4, 3)
                   \cup {[cols |-> L1, rows |-> r] : r \in {<<P1[1], P1[3], P1[3], P1[6]>>, <<P1[4], P1[1], P1[1], P1[2]>>, <<P1[1], P1[1], P1[2], P1[3], P1[3]>>}}
 UnitTuplesQuick == {<<t>> : t \in TablesQuick}
 UnitTuplesThorough == {<<t>> : t \in TablesThorough}
